@@ -5,7 +5,7 @@ import PGM.Proofs.BPSum
 Readings of the log-space scalar operations, `logsumexp` over named attributes and over everything
 as `nsum`, well-formedness of `iop` / `sub`, and `CliqueVec` get/set.
 -/
-namespace PGM.Sem
+namespace PGM.Sem.BP
 open PGM PGM.JT
 set_option linter.unusedSectionVars false
 set_option linter.unusedVariables false
@@ -296,4 +296,4 @@ theorem get_set_ne (cv : CliqueVec Î±) (c c' : Clique) (f : Factor Î±) (h : c âˆ
   unfold CliqueVec.set CliqueVec.get
   rw [if_pos ((any_key_iff cv c).mpr h), lookup_replace, if_neg hne]
 
-end PGM.Sem
+end PGM.Sem.BP
